@@ -15,7 +15,7 @@
             io:fok io:ferr io:fdisc        items: r (request) e (error request) c (100-continue head)
                                                   d (100-continue head whose flush hits a disconnect),
                                                   x (100-continue head whose flush raises), - empty
-            w<k>  w<k>:rc  w<k>:fe  w<k>:lock0  w<k>:lock1  w<k>:cont<sc><dc>
+            w<k>  w<k>:rc  w<k>:fe  w<k>:lock0  w<k>:lock1
             sd
    labels   dec:<kind> start:<sid> req:<sid>:<r> app:<sid>:<r> end:<sid> crash:<sid> queued:<r> refused
             add:<io|w<k>|sd> cancelled *)
@@ -29,11 +29,11 @@ let b01 b = if b then "1" else "0"
 let kind_s = function
   | DWorkerClose -> "worker_close" | DFlushed -> "flushed" | DMaint -> "maint"
   | DFlushErrIO -> "flush_err_io" | DFlushErrW -> "flush_err_w" | DHandleClose -> "handle_close"
-  | DHandleCloseW -> "handle_close_w" | DEof -> "eof" | DCancelWC -> "cancel_wc" | DCancelConn -> "cancel_conn"
+  | DEof -> "eof" | DCancelWC -> "cancel_wc" | DCancelConn -> "cancel_conn"
 let kind_of = function
   | "worker_close" -> DWorkerClose | "flushed" -> DFlushed | "maint" -> DMaint
   | "flush_err_io" -> DFlushErrIO | "flush_err_w" -> DFlushErrW | "handle_close" -> DHandleClose
-  | "handle_close_w" -> DHandleCloseW | "eof" -> DEof | "cancel_wc" -> DCancelWC | "cancel_conn" -> DCancelConn
+  | "eof" -> DEof | "cancel_wc" -> DCancelWC | "cancel_conn" -> DCancelConn
   | s -> failwith ("bad kind " ^ s)
 let who_s = function ByIO -> "io" | ByW w -> "w" ^ string_of_int (ni w) | BySD -> "sd"
 
@@ -81,7 +81,6 @@ let wpc_s = function
   | WKeep1 k -> Printf.sprintf "Keep1.%d" (ni k) | WKeep2 k -> Printf.sprintf "Keep2.%d" (ni k)
   | WKeep3 k -> Printf.sprintf "Keep3.%d" (ni k) | WKeepAdd k -> Printf.sprintf "KeepAdd.%d" (ni k)
   | WKeepE k -> Printf.sprintf "KeepE.%d" (ni k) | WKeep5 k -> Printf.sprintf "Keep5.%d" (ni k)
-  | WEnd k -> Printf.sprintf "End.%d" (ni k)
 let sd_s = function SdIdle -> "Idle" | SdC1 -> "C1" | SdC2 -> "C2" | SdC3 -> "C3"
 let item_s = function IReq false -> "r" | IReq true -> "e" | ICont false -> "c" | ICont true -> "d" | IAbort -> "x"
 let items_s l = if l = [] then "-" else String.concat "" (List.map item_s l)
@@ -130,7 +129,6 @@ let choice_of (tok : string) : choice =
        | "fe" -> CWk (k, WFlushErr)
        | "lock0" -> CWk (k, WLock false)
        | "lock1" -> CWk (k, WLock true)
-       | x when String.length x = 6 && String.sub x 0 4 = "cont" -> CWk (k, WCont (bit x.[4], bit x.[5]))
        | _ -> failwith ("bad token " ^ tok))
   | _ -> failwith ("bad token " ^ tok)
 
@@ -213,7 +211,6 @@ let choices nw maxreq (s : state) : string list =
       let w = "w" ^ string_of_int i in
       match s.wk (nn i) with
       | WTask _ -> [w ^ ":rc"; w ^ ":fe"; w ^ ":lock0"; w ^ ":lock1"]
-      | WKeepE _ -> [w ^ ":cont00"; w ^ ":cont10"; w ^ ":cont11"]
       | _ -> [w])) in
   io @ wk @ ["sd"]
 
